@@ -240,6 +240,19 @@ impl<K: Hash + Eq, KH: KeyHasher<K>, S: BuildHasher> SampledLFU<K, KH, S> {
     }
 }
 
+#[cfg(feature = "verif-hooks")]
+impl<K, KH, S> SampledLFU<K, KH, S> {
+    /// Verification hook: `(used, samples, tracked (hashed key, cost) pairs in hash-map order)`.
+    #[doc(hidden)]
+    pub fn verif_state(&self) -> (i64, usize, Vec<(u64, i64)>) {
+        (
+            self.used,
+            self.samples,
+            self.key_costs.iter().map(|(k, v)| (*k, *v)).collect(),
+        )
+    }
+}
+
 #[cfg(test)]
 mod test {
     use crate::lfu::sampled::SampledLFU;
